@@ -361,7 +361,14 @@ void mvsim_default_cfg(mvsim_runcfg *c, uint64_t run_seed) {
 
 static void ledger_reset(void);
 
+/* the library (or the program under test) calling exit() in the middle of a simulated run is an observable
+   failure of that run (e.g. "myth_mutex_unlock : called on unlocked mutex, abort." + exit(1)), not an
+   infrastructure problem: report it like a crash, with a replay file */
+static void exit_during_run(void) {
+  if (g_active) mvsim_violation("EXIT", "the process called exit() in the middle of a simulated run (the library gave up, see its message on stderr)");
+}
 void mvsim_begin_run(const mvsim_runcfg *c) {
+  { static int reg; if (!reg) { reg = 1; atexit(exit_during_run); } }
   mvsim_global_init();
   g_cfg = *c;
   memset(&g_st, 0, sizeof g_st);
